@@ -4,7 +4,7 @@
    transcription of queue<T> (QueueDefs.q_step) resp. queue<void> (vq_step).  `q_final ops` is the state after the history,
    `q_good pv q done` is the invariant every destruction-free history establishes (q_good_run); histories containing a
    destroy are covered by c09_destroy_cancels + c09_dead_rejects (after destruction every op is rejected). *)
-From Cocls Require Import Base BaseProofs QueueDefs QueueProofs QueueConcProofs QueueOrderProofs.
+From Cocls Require Import Base BaseProofs QueueDefs QueueProofs QueueConcProofs QueueOrderProofs QueueOracleProofs.
 Local Open Scope Z_scope.
 
 (* sequential refinement: every observation of the code-shaped model is the observation of the FIFO specification
@@ -145,6 +145,14 @@ Theorem c09_conc_assignment_in_push_order : forall thrs s, Forall t_fresh thrs -
   forall c, map snd (filter (is_c c) (t_alog s)) = got c s ++ map snd (filter (is_c c) (iitems (t_infl s))).
 Proof. intros thrs s. exact (tq_assignment_in_push_order None thrs s I). Qed.
 Print Assumptions c09_conc_assignment_in_push_order.
+
+(* the oracle that is run on the implementation's controlled-thread traces (replay of the critical sections on the atomic
+   thread-level FIFO, QueueDefs.tq_oracle) accepts every trace the model itself produces: every case file, any threads
+   (fewer than 777, the marker of the deadlock line), any schedule *)
+Theorem c09_thread_oracle_accepts_model : forall ops,
+  (length (flat_map (t_decode_thr false) ops) < 777)%nat -> tq_oracle false ops (tq_run false ops) = true.
+Proof. exact (tq_oracle_accepts_model false). Qed.
+Print Assumptions c09_thread_oracle_accepts_model.
 
 Example c09_conc_nonvacuous :
   let thrs := flat_map (t_decode_thr false) [[1; 101; 102]; [1; 201]; [2; 2]; [2; 1]]%Z in
